@@ -24,6 +24,7 @@ import (
 	stakingtypes "github.com/cosmos/cosmos-sdk/x/staking/types"
 	"github.com/ethereum/go-ethereum/common"
 	ethtypes "github.com/ethereum/go-ethereum/core/types"
+	"github.com/ethereum/go-ethereum/crypto"
 	tmproto "github.com/tendermint/tendermint/proto/tendermint/types"
 	"github.com/tharsis/ethermint/crypto/ethsecp256k1"
 	"github.com/tharsis/ethermint/server/config"
@@ -44,6 +45,7 @@ const (
 	c17ADD          = 0x01
 	c17LT           = 0x10
 	c17EQ           = 0x14
+	c17ISZERO       = 0x15
 	c17AND          = 0x16
 	c17SHR          = 0x1c
 	c17CALLDATALOAD = 0x35
@@ -62,8 +64,11 @@ const (
 	c17SWAP1        = 0x90
 	c17LOG0         = 0xa0
 	c17LOG1         = 0xa1
+	c17LOG2         = 0xa2
 	c17CALL         = 0xf1
 	c17DELEGATECALL = 0xf4
+	c17CREATE2      = 0xf5
+	c17STATICCALL   = 0xfa
 	c17REVERT       = 0xfd
 )
 
@@ -108,8 +113,12 @@ func c17dup(n int) int  { return c17DUP1 + n - 1 }
 func c17swap(n int) int { return c17SWAP1 + n - 1 }
 
 // c17ProxyCode: interpreter of a list of segments in calldata. On entry storage slot 0 is incremented.
-//   op&0x0f: 0 CALL, 1 DELEGATECALL : [target:20][len:2][payload]     (op&0x10: ignore failure of the sub call)
-//            2 LOG1 : [topic:32][len:2][data]      3 LOG0 : [len:2][data]      4 REVERT
+//
+//	op&0x0f: 0 CALL, 1 DELEGATECALL : [target:20][len:2][payload]     (op&0x10: ignore failure of the sub call)
+//	         2 LOG1 : [topic:32][len:2][data]      3 LOG0 : [len:2][data]      4 REVERT
+//	         5 STATICCALL, 6 CALL with value 1 : like 0      8 LOG2 : [topic1:32][topic2:32][len:2][data]
+//	         7 CREATE2 + CALL : [salt:32][ilen:2][initcode][plen:2][payload]   (deploys initcode, then CALLs the new
+//	           contract with payload; op&0x10 as above)
 func c17ProxyCode() []byte {
 	p := func(n int) [1]int { return [1]int{n} }
 	return c17asm(
@@ -124,11 +133,21 @@ func c17ProxyCode() []byte {
 		c17dup(1), p(4), c17EQ, ":rev", c17JUMPI,
 		c17dup(1), p(2), c17EQ, ":log1", c17JUMPI,
 		c17dup(1), p(3), c17EQ, ":log0", c17JUMPI,
+		c17dup(1), p(8), c17EQ, ":log2", c17JUMPI,
+		c17dup(1), p(7), c17EQ, ":create2", c17JUMPI,
 		c17dup(3), p(1), c17ADD, c17CALLDATALOAD, p(96), c17SHR, // [p op kind tgt]
 		c17dup(4), p(21), c17ADD, c17CALLDATALOAD, p(240), c17SHR, // [p op kind tgt len]
 		c17dup(1), c17dup(6), p(23), c17ADD, p(0), c17CALLDATACOPY,
 		c17dup(3), p(1), c17EQ, ":dcall", c17JUMPI,
+		c17dup(3), p(5), c17EQ, ":scall", c17JUMPI,
+		c17dup(3), p(6), c17EQ, ":vcall", c17JUMPI,
 		p(0), p(0), c17dup(3), p(0), p(0), c17dup(7), c17GAS, c17CALL,
+		":after", c17JUMP,
+		"@vcall",
+		p(0), p(0), c17dup(3), p(0), p(1), c17dup(7), c17GAS, c17CALL,
+		":after", c17JUMP,
+		"@scall",
+		p(0), p(0), c17dup(3), p(0), c17dup(6), c17GAS, c17STATICCALL,
 		":after", c17JUMP,
 		"@dcall",
 		p(0), p(0), c17dup(3), p(0), c17dup(6), c17GAS, c17DELEGATECALL,
@@ -136,11 +155,11 @@ func c17ProxyCode() []byte {
 		":next", c17JUMPI,
 		c17dup(4), p(0x10), c17AND, ":next", c17JUMPI,
 		p(0), p(0), c17REVERT,
-		"@next", // [p op kind tgt len]
+		"@next",                          // [p op kind tgt len]
 		c17dup(5), c17ADD, p(23), c17ADD, // [p op kind tgt newp]
 		c17swap(4), c17POP, c17POP, c17POP, c17POP,
 		":loop", c17JUMP,
-		"@log1", // [p op kind]
+		"@log1",                                                   // [p op kind]
 		c17dup(3), p(33), c17ADD, c17CALLDATALOAD, p(240), c17SHR, // [p op kind len]
 		c17dup(1), c17dup(5), p(35), c17ADD, p(0), c17CALLDATACOPY,
 		c17dup(4), p(1), c17ADD, c17CALLDATALOAD, // [p op kind len topic]
@@ -154,6 +173,32 @@ func c17ProxyCode() []byte {
 		c17dup(1), p(0), c17LOG0,
 		c17dup(4), c17ADD, p(3), c17ADD,
 		c17swap(3), c17POP, c17POP, c17POP,
+		":loop", c17JUMP,
+		"@log2",                                                   // [p op kind]
+		c17dup(3), p(65), c17ADD, c17CALLDATALOAD, p(240), c17SHR, // [p op kind len]
+		c17dup(1), c17dup(5), p(67), c17ADD, p(0), c17CALLDATACOPY,
+		c17dup(4), p(33), c17ADD, c17CALLDATALOAD, // [p op kind len topic2]
+		c17dup(5), p(1), c17ADD, c17CALLDATALOAD, // [p op kind len topic2 topic1]
+		c17dup(3), p(0), c17LOG2, // LOG2(offset, size, topic1, topic2) -> [p op kind len]
+		c17dup(4), c17ADD, p(67), c17ADD,
+		c17swap(3), c17POP, c17POP, c17POP,
+		":loop", c17JUMP,
+		"@create2",                                                // [p op kind]
+		c17dup(3), p(33), c17ADD, c17CALLDATALOAD, p(240), c17SHR, // [p op kind ilen]
+		c17dup(1), c17dup(5), p(35), c17ADD, p(0), c17CALLDATACOPY,
+		c17dup(4), p(1), c17ADD, c17CALLDATALOAD, // [p op kind ilen salt]
+		c17dup(2), p(0), p(0), c17CREATE2, // [p op kind ilen addr]
+		c17dup(2), c17dup(6), c17ADD, p(35), c17ADD, // [p op kind ilen addr q]
+		c17dup(1), c17CALLDATALOAD, p(240), c17SHR, // [p op kind ilen addr q plen]
+		c17dup(1), c17dup(3), p(2), c17ADD, p(0), c17CALLDATACOPY,
+		p(0), p(0), c17dup(3), p(0), p(0), c17dup(8), c17GAS, c17CALL, // [p op kind ilen addr q plen success]
+		c17dup(4), c17ISZERO, c17ISZERO, c17AND,
+		":c2ok", c17JUMPI,
+		c17dup(6), p(0x10), c17AND, ":c2ok", c17JUMPI,
+		p(0), p(0), c17REVERT,
+		"@c2ok",              // [p op kind ilen addr q plen]
+		c17ADD, p(2), c17ADD, // [p op kind ilen addr newp]
+		c17swap(5), c17POP, c17POP, c17POP, c17POP, c17POP,
 		":loop", c17JUMP,
 		"@rev",
 		p(0), p(0), c17REVERT,
@@ -178,6 +223,39 @@ func c17SegLog1(topic common.Hash, data []byte) []byte {
 	return append(out, data...)
 }
 
+func c17SegLog2(t1, t2 common.Hash, data []byte) []byte {
+	out := []byte{8}
+	out = append(out, t1.Bytes()...)
+	out = append(out, t2.Bytes()...)
+	out = append(out, byte(len(data)>>8), byte(len(data)))
+	return append(out, data...)
+}
+
+// c17InitCode: constructor returning the helper contract's runtime code (a fresh helper contract at a new address)
+func c17InitCode() []byte {
+	rt := c17ProxyCode()
+	stub := []byte{c17PUSH2, byte(len(rt) >> 8), byte(len(rt)), c17DUP1, c17PUSH1, 12, c17PUSH1, 0, 0x39 /*CODECOPY*/, c17PUSH1, 0, 0xf3 /*RETURN*/}
+	return append(stub, rt...)
+}
+
+func c17Create2Addr(creator common.Address, salt common.Hash) common.Address {
+	return crypto.CreateAddress2(creator, salt, crypto.Keccak256(c17InitCode()))
+}
+
+func c17SegCreate2(ignore bool, salt common.Hash, payload []byte) []byte {
+	op := byte(7)
+	if ignore {
+		op |= 0x10
+	}
+	ic := c17InitCode()
+	out := []byte{op}
+	out = append(out, salt.Bytes()...)
+	out = append(out, byte(len(ic)>>8), byte(len(ic)))
+	out = append(out, ic...)
+	out = append(out, byte(len(payload)>>8), byte(len(payload)))
+	return append(out, payload...)
+}
+
 func c17SegLog0(data []byte) []byte {
 	out := []byte{3, byte(len(data) >> 8), byte(len(data))}
 	return append(out, data...)
@@ -191,17 +269,19 @@ type c17World struct {
 	ctx   sdk.Context
 	denom string
 
-	eoaKeys []*ethsecp256k1.PrivKey
-	eoas    []common.Address
-	proxies []common.Address
-	plain   common.Address // funded account without code and without key (call target without code)
-	vals    []sdk.ValAddress
-	valOps  []sdk.AccAddress
-	unknown sdk.ValAddress // well-formed operator address without validator
+	eoaKeys        []*ethsecp256k1.PrivKey
+	eoas           []common.Address
+	proxies        []common.Address
+	plain          common.Address // funded account without code and without key (call target without code)
+	vals           []sdk.ValAddress
+	valOps         []sdk.AccAddress
+	unknown        sdk.ValAddress // well-formed operator address without validator
 	stakingA, govA common.Address
-	obk     adbank.OverwriteBankKeeper
-	hist    []string
-	named   map[string]string // bech32 acc address -> hex
+	obk            adbank.OverwriteBankKeeper
+	hist           []string
+	named          map[string]string // bech32 acc address -> hex
+	skip           bool              // after `slash`: shares != tokens, the model's outputs are not compared until the next reset
+	maskB          bool              // after `allocate`: rewards outstanding, balances and supply are not compared
 }
 
 var c17BlockTime = time.Date(2022, 6, 1, 0, 0, 0, 0, time.UTC)
@@ -269,6 +349,9 @@ func newC17World() *c17World {
 		w.eoaKeys = append(w.eoaKeys, k)
 		w.eoas = append(w.eoas, addr)
 		c17Fund(a, ctx, addr.Bytes(), w.denom, c17Pow10(21))
+		if ed := a.EvmKeeper.GetParams(ctx).EvmDenom; ed != w.denom {
+			c17Fund(a, ctx, addr.Bytes(), ed, c17Pow10(21))
+		}
 	}
 	// helper contracts
 	code := c17ProxyCode()
@@ -276,6 +359,9 @@ func newC17World() *c17World {
 		addr := common.BytesToAddress(append([]byte{0xc1, 0x70, 0x00, 0x00}, byte(0xa0+i)))
 		a.SetEVMCode(ctx, addr, code)
 		c17Fund(a, ctx, addr.Bytes(), w.denom, c17Pow10(21))
+		if ed := a.EvmKeeper.GetParams(ctx).EvmDenom; ed != w.denom {
+			c17Fund(a, ctx, addr.Bytes(), ed, c17Pow10(21))
+		}
 		w.proxies = append(w.proxies, addr)
 	}
 	for _, m := range []string{govtypes.ModuleName, stakingtypes.BondedPoolName, "distribution"} {
@@ -319,6 +405,7 @@ func newC17World() *c17World {
 func (w *c17World) reset() {
 	w.ctx, _ = w.base.CacheContext()
 	w.hist = nil
+	w.skip, w.maskB = false, false
 }
 
 // ---- observation ------------------------------------------------------------------------------------
@@ -350,9 +437,10 @@ func (w *c17World) accHex(bech string) string {
 }
 
 // dump: canonical observation of contract-visible and native state.
-//   C: proxy counters (storage slot 0)    B: bank balances of actors, staking pools, fee collector; S: total supply of bond denom
-//   D: delegations (delegator/validator=shares, exchange rate is 1 in every generated history)
-//   U: unbonding delegations (entries' balances)   R: redelegations   V: votes   G: deposits
+//
+//	C: proxy counters (storage slot 0)    B: bank balances of actors, staking pools, fee collector; S: total supply of bond denom
+//	D: delegations (delegator/validator=shares, exchange rate is 1 in every generated history)
+//	U: unbonding delegations (entries' balances)   R: redelegations   V: votes   G: deposits
 func (w *c17World) dump(ctx sdk.Context) string {
 	var sb strings.Builder
 	sb.WriteString("C:")
@@ -385,7 +473,7 @@ func (w *c17World) dump(ctx sdk.Context) string {
 	}
 	var ds []string
 	for _, d := range w.app.StakingKeeper.GetAllDelegations(ctx) {
-		if isOp(d.DelegatorAddress) {
+		if isOp(d.DelegatorAddress) || strings.HasPrefix(w.valIndex(d.ValidatorAddress), "?") {
 			continue // genesis self delegations (constant; checked by the oracle through the validator tokens)
 		}
 		sh := d.Shares.String()
@@ -453,12 +541,12 @@ type c17TxResult struct {
 	info   string
 }
 
-func (w *c17World) sendTx(fromIdx int, to common.Address, data []byte) c17TxResult {
+func (w *c17World) sendTx(fromIdx int, to common.Address, value *big.Int, data []byte) c17TxResult {
 	cctx, write := w.ctx.CacheContext()
 	from := w.eoas[fromIdx]
 	chainID := w.app.EvmKeeper.ChainID()
 	nonce := w.app.EvmKeeper.GetNonce(cctx, from)
-	tx := evm.NewTx(chainID, nonce, &to, big.NewInt(0), config.DefaultGasCap, big.NewInt(0), big.NewInt(0), big.NewInt(0), data, &ethtypes.AccessList{})
+	tx := evm.NewTx(chainID, nonce, &to, value, config.DefaultGasCap, big.NewInt(0), big.NewInt(0), big.NewInt(0), data, &ethtypes.AccessList{})
 	tx.From = from.Hex()
 	if err := tx.Sign(ethtypes.LatestSignerForChainID(chainID), tests.NewSigner(w.eoaKeys[fromIdx])); err != nil {
 		panic(err)
